@@ -281,6 +281,28 @@ fn exact_grid(args: &Args, rep: &mut Report) {
             }
         }
     }
+    // located exact grid (event-based bounds crossing midnight on a selector's boundary day), 2022..2033
+    let mut lidx = 0u64;
+    for (lat, lon) in stream::LOCATED_GRID_SITES {
+        for text in stream::located_grid_expressions(lat, lon) {
+            lidx += 1;
+            if (lidx - 1) % args.of.max(1) != args.worker {
+                continue;
+            }
+            let Some(oh) = stream::build_located(&text, lat, lon) else { continue };
+            rep.evaluations += 1;
+            rep.begin(&format!("located grid {text} | ({lat}, {lon})"));
+            match stream::check_exact_located(&oh, ymd(2022, 1, 1), ymd(2033, 12, 31), &mut Rng::new(args.seed, 0x10ca, lidx), 40, &mut st) {
+                Ok(()) => rep.count("located_grid_windows_passed"),
+                Err(msg) => {
+                    rep.violation("state_next_change_exact_located", format!("{text:?} at ({lat}, {lon}) [UTC]: {msg}"), json!({"expr": text, "lat": lat, "lon": lon, "located_grid": true, "seed": args.seed, "stream": lidx}), None);
+                    if rep.full() {
+                        return;
+                    }
+                }
+            }
+        }
+    }
     rep.add("exact_grid_days_evaluated", st.days_evaluated);
     rep.add("exact_grid_next_change_calls", st.next_change_calls);
 }
@@ -371,6 +393,22 @@ pub fn run(args: &Args, rep: &mut Report) {
 pub fn replay(args: &Args, case: &Value, rep: &mut Report) {
     let text = case_expr(case);
     let hol = case_hol(case);
+    if case["located_grid"].as_bool() == Some(true) {
+        rep.evaluations += 1;
+        let (lat, lon) = (case["lat"].as_f64().unwrap_or(0.0), case["lon"].as_f64().unwrap_or(0.0));
+        let ymd = |y: i32, m: u32, d: u32| chrono::NaiveDate::from_ymd_opt(y, m, d).unwrap();
+        let mut st = stream::ExactStats { days_evaluated: 0, intervals_compared: 0, next_change_calls: 0 };
+        match stream::build_located(&text, lat, lon) {
+            None => rep.violation("witness_rejected", format!("{text:?} does not parse"), case.clone(), None),
+            Some(oh) => {
+                let mut r = Rng::new(case["seed"].as_u64().unwrap_or(5), 0x10ca, case["stream"].as_u64().unwrap_or(0));
+                if let Err(msg) = stream::check_exact_located(&oh, ymd(2022, 1, 1), ymd(2033, 12, 31), &mut r, 40, &mut st) {
+                    rep.violation("state_next_change_exact_located", format!("{text:?} at ({lat}, {lon}) [UTC]: {msg}"), case.clone(), None);
+                }
+            }
+        }
+        return;
+    }
     if let (Some(d0), Some(d1)) = (case["exact_from"].as_str().and_then(|s| s.parse::<chrono::NaiveDate>().ok()), case["exact_to"].as_str().and_then(|s| s.parse::<chrono::NaiveDate>().ok())) {
         rep.evaluations += 1;
         let Some(oh) = build(&text, &hol) else {
